@@ -828,3 +828,7 @@ pub mod benches {
         group.finish();
     }
 }
+
+#[cfg(kani)]
+#[path = "/verif/units/kani/branch_node.rs"]
+mod verif_kani;
